@@ -1,2 +1,190 @@
-(* C01 driver section: not implemented yet *)
-let init () = ()
+(* C01/C02: random vector OLE, both variants (coq/Model/Rvole.v over Model/RvoleCore.v, SoftSpoken.v,
+   Endemic.v).  Structured data travel as the byte images the Rust side obtains with bytemuck; scalar
+   lists as comma separated hex numbers; receiver states stay in this process, keyed by an id chosen
+   by the harness (they are outputs of the model's own `new`). *)
+module M = M_c01
+module S = Proto.Std (M)
+module C = S.C
+
+let q () = C.z_of_hex "FFFFFFFFFFFFFFFFFFFFFFFFFFFFFFFEBAAEDCE6AF48A03BBFD25E8CD0364141"
+
+let rec nat_of_int (i : int) : M.nat = if i <= 0 then M.O else M.S (nat_of_int (i - 1))
+let rec int_of_nat (n : M.nat) : int = match n with M.O -> 0 | M.S k -> 1 + int_of_nat k
+let split (n : int) (k : int) (l : 'a list) : 'a list list = M.chunks (nat_of_int n) (nat_of_int k) l
+
+let split_list (s : string) : string list =
+  if s = "-" || s = "" then [] else String.split_on_char ',' s
+let join_list (l : string list) : string = if l = [] then "-" else String.concat "," l
+let zlist (s : string) : M.z list = List.map C.z_of_hex (split_list s)
+let arg_of_zlist (l : M.z list) : string = join_list (List.map C.hex_of_z l)
+
+(* [[[u8;32];16];64] *)
+let keys_of_hex (h : string) : M.n list list list =
+  List.map (split 32 16) (split (32 * 16) 64 (C.bytes_of_hex h))
+
+(* Round1Output { u : [[u8;80];64], x : [u8;16], t : [[u8;16];256] } *)
+let round1_of_hex (h : string) : M.round1Output =
+  let b = C.bytes_of_hex h in
+  match split 5120 1 b, split 16 1 (M.skipn (nat_of_int 5120) b), split 4096 1 (M.skipn (nat_of_int 5136) b) with
+  | [u], [x], [t] -> { M.r1_u = split 80 64 u; M.r1_x = x; M.r1_t = split 16 256 t }
+  | _ -> failwith "round1_of_hex"
+
+(* RHO blocks of 64 rng bytes *)
+let eta_of_hex (h : string) : M.n list list =
+  let b = C.bytes_of_hex h in
+  split 64 (List.length b / 64) b
+
+(* EndemicOTMsg1/2: 256 x [[u8;33];2] *)
+let eot_msg_of_hex (h : string) : (M.n list * M.n list) list =
+  let b = C.bytes_of_hex h in
+  List.map (fun e -> match split 33 2 e with [x; y] -> (x, y) | _ -> failwith "eot_msg_of_hex")
+    (split 66 (List.length b / 66) b)
+
+let rec pairs (l : 'a list) : ('a * 'a) list = match l with
+  | a :: b :: r -> (a, b) :: pairs r
+  | [] -> []
+  | [_] -> failwith "c01: odd number of items"
+
+(* adversary specification: entries "j/a0,a1/g" separated by ';' *)
+let spec_of_arg (s : string) : (M.nat * (M.z list * bool)) list =
+  if s = "-" || s = "" then [] else
+    List.map (fun e -> match String.split_on_char '/' e with
+        | [j; a; g] -> (nat_of_int (int_of_string j), (zlist a, g = "1"))
+        | _ -> failwith "spec_of_arg")
+      (String.split_on_char ';' s)
+
+(* The transcript oracle of this driver.  Same function as [S.transcript] (the whole history is what
+   determines the answer), but successive challenges of ONE growing transcript (gadget vector: 512 of
+   them) are sent incrementally: when the history of the previous query is a prefix of the new one, only
+   the new operations travel ("HX"), and the harness continues the merlin transcript it kept after the
+   previous challenge -- which is what replaying the whole history computes.  Otherwise "HN" sends the
+   whole history. *)
+let hex2 : string array = Array.init 256 (fun i -> Printf.sprintf "%02x" i)
+let fast_hex (l : M.n list) : string =
+  if l = [] then "-" else begin
+    let b = Buffer.create 64 in
+    List.iter (fun x -> Buffer.add_string b hex2.(C.int_of_n x land 255)) l;
+    Buffer.contents b
+  end
+let ser_top (t : M.top) : string = match t with
+  | M.TInit l -> "I:" ^ fast_hex l
+  | M.TAppend (l, d) -> "M:" ^ fast_hex l ^ ":" ^ fast_hex d
+  | M.TAppendU64 (l, v) -> "U:" ^ fast_hex l ^ ":" ^ C.hex_of_n v
+  | M.TChallenge (l, n) -> "C:" ^ fast_hex l ^ ":" ^ C.hex_of_n n
+let last_ops : M.top list ref = ref []
+let rec strip_prefix (p : M.top list) (l : M.top list) : M.top list option = match p, l with
+  | [], r -> Some r
+  | x :: p', y :: l' -> if x = y then strip_prefix p' l' else None
+  | _ :: _, [] -> None
+let all_bytes_ok (ops : M.top list) : bool =
+  let ok l = List.for_all (fun x -> C.int_of_n x < 256) l in
+  List.for_all (fun t -> match t with
+      | M.TInit l -> ok l | M.TAppend (l, d) -> ok l && ok d
+      | M.TAppendU64 (l, _) -> ok l | M.TChallenge (l, _) -> ok l) ops
+let transcript (ops : M.top list) : M.n list =
+  if not (all_bytes_ok ops) then S.transcript ops else begin
+    let ser l = String.concat "," (List.map ser_top l) in
+    let ans = match (if !last_ops = [] then None else strip_prefix !last_ops ops) with
+      | Some (_ :: _ as suffix) -> Proto.ask ["HX"; ser suffix]
+      | _ -> Proto.ask ["HN"; ser ops] in
+    last_ops := ops;
+    match ans with
+    | [h] -> C.bytes_of_hex h
+    | _ -> failwith "HN/HX: bad answer"
+  end
+
+let msg_of_hex (h : string) : M.rmsg = M.rmsg_of_bytes M.rv_xi M.rv_lb M.rv_rho (C.bytes_of_hex h)
+let hex_of_msg (m : M.rmsg) : string = C.hex_of_bytes (M.rmsg_to_bytes m)
+
+let states : (string, M.rv_state) Hashtbl.t = Hashtbl.create 16
+let ot_states : (string, M.rvo_state) Hashtbl.t = Hashtbl.create 16
+
+let outcome_z (r : M.z list M.outcome) : string list = match r with
+  | M.Val d -> ["ok"; arg_of_zlist d]
+  | M.Err e -> ["err"; C.hex_of_n e]
+  | M.Panic p -> ["panic"; C.hex_of_n p]
+
+let init () =
+  (* new id sid enc_keys buf beta tape -> b, round-one message bytes, state bytes *)
+  Proto.register "c01.new" (fun args -> match args with
+    | [id; sid; keys; buf; beta; tape] ->
+      let ((st, b), r1) = M.rvole_recv_new transcript (q ()) (C.bytes_of_hex sid)
+          (keys_of_hex keys) (round1_of_hex buf) (C.bytes_of_hex beta) (C.bytes_of_hex tape) in
+      Hashtbl.replace states id st;
+      [C.hex_of_z b; C.hex_of_bytes (M.round1_bytes r1); C.hex_of_bytes (M.rv_state_bytes st)]
+    | _ -> failwith "c01.new: arity");
+  (* send sid random_choices dec_keys a round1 eta_tape -> ok msg c | err code *)
+  Proto.register "c01.send" (fun args -> match args with
+    | [sid; deltas; keys; a; r1; eta] ->
+      let seed = { M.random_choices = C.bytes_of_hex deltas; M.otp_dec_keys = keys_of_hex keys } in
+      (match M.rvole_send_process transcript (q ()) (C.bytes_of_hex sid) seed (zlist a) (round1_of_hex r1)
+               (eta_of_hex eta) with
+       | M.Val (m, c) -> ["ok"; hex_of_msg m; arg_of_zlist c]
+       | M.Err e -> ["err"; C.hex_of_n e]
+       | M.Panic p -> ["panic"; C.hex_of_n p])
+    | _ -> failwith "c01.send: arity");
+  (* recv id msg -> ok d | err code *)
+  Proto.register "c01.recv" (fun args -> match args with
+    | [id; msg] ->
+      let st = Hashtbl.find states id in
+      outcome_z (M.rvole_recv_process transcript (q ()) st (msg_of_hex msg))
+    | _ -> failwith "c01.recv: arity");
+  (* adv sid random_choices dec_keys a round1 eta_tape spec -> ok msg | err code *)
+  Proto.register "c01.adv" (fun args -> match args with
+    | [sid; deltas; keys; a; r1; eta; spec] ->
+      let seed = { M.random_choices = C.bytes_of_hex deltas; M.otp_dec_keys = keys_of_hex keys } in
+      (match M.rvole_adv_send transcript (q ()) (C.bytes_of_hex sid) seed (zlist a) (round1_of_hex r1)
+               (eta_of_hex eta) (spec_of_arg spec) with
+       | M.Val m -> ["ok"; hex_of_msg m]
+       | M.Err e -> ["err"; C.hex_of_n e]
+       | M.Panic p -> ["panic"; C.hex_of_n p])
+    | _ -> failwith "c01.adv: arity");
+  (* ---- base-OT variant ---- *)
+  (* ot_new id sid bits_a tas_a ros_a bits_b tas_b ros_b -> ok b msg1a msg1b *)
+  Proto.register "c01.ot_new" (fun args -> match args with
+    | [id; sid; bits_a; tas_a; ros_a; bits_b; tas_b; ros_b] ->
+      let g = S.group "k" in
+      (match M.rvole_ot_recv_new transcript (q ()) g (C.bytes_of_hex sid)
+               (C.bytes_of_hex bits_a) (zlist tas_a) (split_list ros_a)
+               (C.bytes_of_hex bits_b) (zlist tas_b) (split_list ros_b) with
+       | M.Val ((st, b), (m1a, m1b)) ->
+         Hashtbl.replace ot_states id st;
+         ["ok"; C.hex_of_z b; C.hex_of_bytes (M.eot_msg_bytes m1a); C.hex_of_bytes (M.eot_msg_bytes m1b);
+          C.hex_of_bytes st.M.ro_beta]
+       | M.Err e -> ["err"; C.hex_of_n e]
+       | M.Panic p -> ["panic"; C.hex_of_n p])
+    | _ -> failwith "c01.ot_new: arity");
+  (* ot_send sid a m1a m1b tbs_a tbs_b eta -> verdict m2a m2b msg c *)
+  Proto.register "c01.ot_send" (fun args -> match args with
+    | [sid; a; m1a; m1b; tbs_a; tbs_b; eta] ->
+      let g = S.group "k" in
+      let ((m2a, m2b), r) = M.rvole_ot_send_process transcript (q ()) g (C.bytes_of_hex sid) (zlist a)
+          (eot_msg_of_hex m1a) (eot_msg_of_hex m1b) (pairs (zlist tbs_a)) (pairs (zlist tbs_b)) (eta_of_hex eta) in
+      let ha = C.hex_of_bytes (M.eot_msg_bytes m2a) and hb = C.hex_of_bytes (M.eot_msg_bytes m2b) in
+      (match r with
+       | M.Val (m, c) -> ["ok"; ha; hb; hex_of_msg m; arg_of_zlist c]
+       | M.Err e -> ["err" ^ C.hex_of_n e; ha; hb; "-"; "-"]
+       | M.Panic p -> ["panic" ^ C.hex_of_n p; ha; hb; "-"; "-"])
+    | _ -> failwith "c01.ot_send: arity");
+  (* ot_recv id m2a m2b msg -> ok d | err code *)
+  Proto.register "c01.ot_recv" (fun args -> match args with
+    | [id; m2a; m2b; msg] ->
+      let g = S.group "k" in
+      let st = Hashtbl.find ot_states id in
+      outcome_z (M.rvole_ot_recv_process transcript (q ()) g st (eot_msg_of_hex m2a) (eot_msg_of_hex m2b)
+                   (msg_of_hex msg))
+    | _ -> failwith "c01.ot_recv: arity");
+  (* ot_adv sid a m1a m1b tbs_a tbs_b eta spec -> verdict m2a m2b msg *)
+  Proto.register "c01.ot_adv" (fun args -> match args with
+    | [sid; a; m1a; m1b; tbs_a; tbs_b; eta; spec] ->
+      let g = S.group "k" in
+      let ((m2a, m2b), r) = M.rvole_ot_adv_send transcript (q ()) g (C.bytes_of_hex sid) (zlist a)
+          (eot_msg_of_hex m1a) (eot_msg_of_hex m1b) (pairs (zlist tbs_a)) (pairs (zlist tbs_b)) (eta_of_hex eta)
+          (spec_of_arg spec) in
+      let ha = C.hex_of_bytes (M.eot_msg_bytes m2a) and hb = C.hex_of_bytes (M.eot_msg_bytes m2b) in
+      (match r with
+       | M.Val m -> ["ok"; ha; hb; hex_of_msg m]
+       | M.Err e -> ["err" ^ C.hex_of_n e; ha; hb; "-"]
+       | M.Panic p -> ["panic" ^ C.hex_of_n p; ha; hb; "-"])
+    | _ -> failwith "c01.ot_adv: arity");
+  Proto.register "c01.drop" (fun args -> List.iter (fun id -> Hashtbl.remove states id; Hashtbl.remove ot_states id) args; ["ok"])
